@@ -336,7 +336,14 @@ impl Acc {
         // preferring non-trivial ones.
         let e = self.res.evaluations;
         if (self.sample_budget > 0 && nontrivial && e > 2) || e == 1 {
-            self.res.samples.push(serde_json::to_value(case).unwrap());
+            let text = serde_json::to_string(case).unwrap();
+            if text.len() <= 6000 {
+                self.res.samples.push(serde_json::to_value(case).unwrap());
+            } else {
+                // very large cases (huge legs) are shown by their head only
+                let head: String = text.chars().take(1500).collect();
+                self.res.samples.push(json!({"large_case_bytes": text.len(), "head": head}));
+            }
             if e > 1 {
                 self.sample_budget -= 1;
             }
